@@ -373,6 +373,12 @@ class _Marshaller:
     # FIXME: will probably have to adjust similar to how we
     # adjusted dump_code2
     def dump_code3(self, x):
+        if hasattr(x, "co_exceptiontable"):
+            # 3.11 changed the layout (qualified name, exception table,
+            # one table for local, cell and free variable names).
+            raise TypeError(
+                "writing Python 3.11 or later code objects is not supported"
+            )
         self._write(TYPE_CODE)
         self.w_long(x.co_argcount)
         if hasattr(x, "co_posonlyargcount"):
